@@ -440,7 +440,17 @@ def mon_c02(ix: Index):
             what = "value" if obs[0] == f[0][0] == "ret" else ("exception" if obs[0] == f[0][0] else "kind")
             if what == "value" and obs[1] == f[0][1]:
                 what = "mapping-iteration-order"  # equal by ==, but a loop over the delivered mapping runs in another order
-            out.append(V("C02", "C02/replay-differs/%s/%s" % (e.get("opkind"), what),
+            k2 = "C02/replay-differs/%s/%s" % (e.get("opkind"), what)
+            if what == "value" and e.get("opkind") in ("par", "map"):
+                # mechanism class shared with C09 / C16 (known finding): a summarised batch decided early, a branch recorded after the decision
+                def _sig_at(idx, path=e["path"]):
+                    b = next((x for x in ix.trace[idx:idx + 4] if x["kind"] == "batch" and x["path"] == path and x.get("items") is not None), None)  # follows its ret event
+                    return b and ((tuple(tuple(x) if isinstance(x, list) else x for x in map(tuple, b["items"])), b["reason"]), b)
+                s1, s2 = _sig_at(f[2]), _sig_at(e["i"])
+                mech = _early_summarised_drift(s1[0], s2[0], s2[1]) if s1 and s2 else None
+                if mech:
+                    k2 = "C02/replay-differs/" + mech
+            out.append(V("C02", k2,
                          "%s delivered %s in invocation %d but %s in invocation %d" % (e["path"], str(f[0])[:80], f[1], str(obs)[:80], e["inv"]), e["i"]))
     ix.r.setdefault("stats", {})["c02_deliveries"] = n
     return out
